@@ -20,7 +20,7 @@ import (
 )
 
 func init() {
-	register(&Prop{ID: "C16", Gen: genC16, Run: runC16, Timeout: 20 * time.Second})
+	register(&Prop{ID: "C16", Gen: genC16, Run: runC16, Timeout: 10 * time.Minute})
 }
 
 func g3ParseRole(s string) (protocol.ProtocolRole, bool) {
@@ -64,10 +64,10 @@ func runC16(op string) string {
 		}
 		syms = append(syms, s)
 	}
-	fx := newG3Fixture(p, role, g3FixOpts{})
+	fx := newG3Fixture(p, role, g3FixOpts{slowTimers: true})
 	defer fx.close()
 	// wait for the initial state to be set
-	if !fx.waitFor(2*time.Second, func(ev []g3Event, _ []uint8) bool {
+	if !fx.waitFor(g3Deadline, func(ev []g3Event, _ []uint8) bool {
 		for _, e := range ev {
 			if e.Kind == "state" {
 				return true
@@ -96,7 +96,7 @@ func runC16(op string) string {
 			}
 		}
 		want := i + 1
-		okw := fx.waitFor(3*time.Second, func(ev []g3Event, _ []uint8) bool {
+		okw := fx.waitFor(g3Deadline, func(ev []g3Event, _ []uint8) bool {
 			n := 0
 			for _, e := range ev {
 				// "state" is logged after the new state is visible (the initial state is not counted)
